@@ -66,7 +66,7 @@ theorem bashF32_eq_spec (s : Vector UInt64 24) (x : Fin 24) :
     (F32.deinterAll (F32.bashF0_32 (F32.interAll s)))[x].toBitVec = Spec.bashF (fun y => s[y].toBitVec) x :=
   F32.bashF0_32_spec s x
 
-example : ∃ b : List UInt8, b.length = 192 := ⟨List.replicate 192 0, by decide⟩
+example : ∃ b : List UInt8, b.length = 192 := ⟨List.replicate 192 0, List.length_replicate⟩
 
 /-! ## bash hash and the programmable automaton (bash_hash.c, bash_prg.c)
 
